@@ -30,7 +30,7 @@ RULE = (
     "= (validity classes) / (top-level ast node, operator, operand types, outcome class)."
 )
 ASSUMPTIONS = ["nesting depth of generated expressions <= 40 (deeper inputs hit CPython's recursion limit, outside what the property's 'grammar' calls for)", "contexts are JSON-representable values"]
-MIN_OBS = {"graphs_checked": {"quick": 3000, "thorough": 100000}, "expressions_checked": {"quick": 20000, "thorough": 1000000}, "audit_events_seen": {"quick": 20000, "thorough": 1000000}}
+MIN_OBS = {"graphs_checked": {"quick": 3000, "thorough": 100000}, "expressions_checked": {"quick": 20000, "thorough": 1000000}, "audit_events_seen": {"quick": 20000, "thorough": 600000}}
 TIMEOUT = {"quick": 800, "thorough": 3400}
 
 
